@@ -32,5 +32,5 @@ def run(ctx):
     ks = [13, 24, 3] if q else list(range(len(P.HOLES)))
     C += PC.text_holes(ctx, own, ks, vis=(4,), timeout=900 if q else 2400)
     C += PC.spell_holes(ctx, own, [2, 5] if q else range(len(P.SPELL)))
-    C += PC.label_holes(ctx, own, [P.skel('# h')] + _pipe.pick(ctx, 1, len(P.SKELS), 5) if q else range(len(P.SKELS)), vis=(4,) if q else (0, 4, 8))
+    C += PC.label_holes(ctx, own, [P.skel('# h'), P.skel("f'''"), P.skel('f"a')] + _pipe.pick(ctx, 1, len(P.SKELS), 5) if q else range(len(P.SKELS)), vis=(4,) if q else (0, 4, 8))
     xh.run_conditions(ctx, C)
